@@ -28,7 +28,7 @@ theorem inv19_iff_mirror (s : State) : Inv19 s ↔ Mirror s.allow s.allowSp := I
 /-- A fresh token has no allowances in either map. -/
 theorem instantiate_inv19 {m : InstMsg} {s : State} (h : instantiate m = .ok s) : Inv19 s ∧ Nodup19 s := by
   simp [instantiate] at h
-  obtain ⟨_, hnd, b, t, hc, _, w, _, rfl⟩ := h
+  obtain ⟨_, hnd, b, t, hc, _, w, _, mk, lg, _, rfl⟩ := h
   exact ⟨fun _ _ => rfl, by simp [Nodup19, AMap.NodupKeys, AMap.keys]⟩
 
 /-! ## Preserved by every message kind -/
@@ -124,6 +124,10 @@ theorem execute_allow_cases {s s' : State} {blk : Block} {snd : Addr} {msg : Msg
     obtain ⟨_, _, s1, hd, b1, h1, b2, h2, rfl, _⟩ := h
     obtain ⟨a, e1, e2⟩ := hded hd
     right; left; exact ⟨o.text, snd, a, e1, e2⟩
+  case updateMarketing p d m =>
+    obtain ⟨mk, rfl, _⟩ := execUpdateMarketing_frame h; left; exact ⟨rfl, rfl⟩
+  case uploadLogo l =>
+    obtain ⟨mk, rfl, _⟩ := execUploadLogo_frame h; left; exact ⟨rfl, rfl⟩
 
 /-- **C19, step clause**: every successful call of every message kind preserves the agreement of the
 two maps (grants, decreases incl. removal, draws incl. draws to exactly zero, burns through an
